@@ -147,4 +147,19 @@ func timingOracles(c *Ctx) {
 				"a := 41; f := func(x) { return a + x }; g := [1, 2] | <cancelled fragment> | g[0] = 5; return [f(1), a, g]", "C09:session-lost-after-cancel:" + when})
 		}
 	}
+	// 5. a context that ends AFTER its fragment has finished has nothing to do with later fragments
+	{
+		c.dist["oracle:stale-context"]++
+		ev := ugo.NewEval(ugo.CompilerOptions{}, nil)
+		ctx1, cancel1 := context.WithCancel(context.Background())
+		if _, _, err := ev.Run(ctx1, []byte("a := 1")); err == nil {
+			go func() { time.Sleep(20 * time.Millisecond); cancel1() }()
+			ret, _, err := ev.Run(context.Background(), []byte("n := 0\nfor i := 0; i < 4000000; i++ { n++ }\nreturn n + a"))
+			if err != nil || fmt.Sprint(ret) != "4000001" {
+				c.Violation(PropViolation{"C09", fmt.Sprintf("the context of an EARLIER, finished fragment was cancelled while a later fragment ran under context.Background(): the later fragment gives %v, %v, want 4000001", ret, err),
+					"ev.Run(ctx1, `a := 1`); cancel1() during ev.Run(context.Background(), <loop>)", "C09:stale-context-aborts-later-fragment"})
+			}
+		}
+		cancel1()
+	}
 }
